@@ -140,6 +140,17 @@ pub enum SearchExecutionPath {
 const NORMALIZATION_NORM_SQ_MIN: f32 = 0.98;
 const NORMALIZATION_NORM_SQ_MAX: f32 = 1.02;
 const DEFAULT_QUERY_CACHE_SCOPE: u64 = 0;
+/// Largest `k` the cold tier accepts (`HnswBackend::knn_search*` rejects anything above).
+const COLD_TIER_MAX_K: usize = 10_000;
+
+/// Number of cold-tier candidates to fetch for a top-`k` request: 2x over-fetch, clamped to what
+/// the cold tier accepts. `k` itself is validated to be <= 10,000, so an unclamped `k * 2` made
+/// every request with k in (5,000, 10,000] fail inside the cold tier (and, on the timed path,
+/// count against its circuit breaker).
+#[inline]
+fn cold_tier_candidates(k: usize) -> usize {
+    k.saturating_mul(2).min(COLD_TIER_MAX_K)
+}
 
 /// Configuration for tiered engine
 #[derive(Debug, Clone)]
@@ -1242,8 +1253,11 @@ impl TieredEngine {
         // Only search cold tier if it has documents (dimension > 0)
         let cold_results = if cold_tier_has_docs {
             let effective_ef_search = ef_search_override.or(Some(self.config.hnsw_ef_search));
-            self.cold_tier
-                .knn_search_with_ef(query, k * 2, effective_ef_search)?
+            self.cold_tier.knn_search_with_ef(
+                query,
+                cold_tier_candidates(k),
+                effective_ef_search,
+            )?
         } else {
             vec![]
         };
@@ -1464,9 +1478,11 @@ impl TieredEngine {
 
         let cold_results = if cold_tier_has_docs {
             let effective_ef_search = ef_search_override.unwrap_or(self.config.hnsw_ef_search);
-            let results =
-                self.cold_tier
-                    .knn_search_batch(&miss_queries, k * 2, Some(effective_ef_search))?;
+            let results = self.cold_tier.knn_search_batch(
+                &miss_queries,
+                cold_tier_candidates(k),
+                Some(effective_ef_search),
+            )?;
             {
                 let mut stats = self.stats.write();
                 stats.cold_tier_searches += miss_indices.len() as u64;
@@ -2017,7 +2033,7 @@ impl TieredEngine {
                         let _worker_permit = worker_permit;
                         cold_tier.knn_search_with_ef_cancel(
                             &query_vec,
-                            k * 2,
+                            cold_tier_candidates(k),
                             effective_ef_search,
                             Some(cold_cancel_worker.as_ref()),
                         )
